@@ -248,7 +248,7 @@ func (c *connectClient) NewConn(
 ) StreamingClientConn {
 	if deadline, ok := ctx.Deadline(); ok {
 		millis := int64(time.Until(deadline) / time.Millisecond)
-		if millis > 0 {
+		if millis >= 0 {
 			encoded := strconv.FormatInt(millis, 10 /* base */)
 			if len(encoded) <= 10 {
 				header[connectHeaderTimeout] = []string{encoded}
